@@ -734,50 +734,7 @@ func c15(c *Ctx) {
 
 	// R6 copy-on-write of the published processor list
 	c.Rule("R6", "E5 immutability (alias tracking)", "the span-processor list published through the atomic pointer is never written in place: element stores, copy destinations, append first arguments and in-place slices operations are rooted at fresh allocations (readers iterate the list without a lock)", 3)
-	{
-		fSP := lookupField(tix.Pkg, "TracerProvider", "spanProcessors")
-		getter := tix.Func("(*TracerProvider).getSpanProcessors")
-		n := 0
-		for _, fn := range sortedFuncs(tix.Funcs) {
-			isRoot := func(e ast.Expr) bool {
-				e = unparen(e)
-				if st, ok := e.(*ast.StarExpr); ok {
-					e = unparen(st.X)
-				}
-				call, ok := e.(*ast.CallExpr)
-				if !ok {
-					return false
-				}
-				if getter != nil && callToDecl(tinfo, getter)(call) {
-					return true
-				}
-				return fSP != nil && fieldMethodCall(tinfo, call, fSP, "Load") != nil
-			}
-			uses := false
-			for _, fi := range tix.All {
-				if tix.Outer(fi) != fn {
-					continue
-				}
-				inspectNoLit(fi.Body(), func(nd ast.Node) bool {
-					if e, ok := nd.(ast.Expr); ok && isRoot(e) {
-						uses = true
-					}
-					return true
-				})
-			}
-			if !uses || fn == getter {
-				continue
-			}
-			n++
-			c.Analysed(fn)
-			bad := sharedSliceWrites(tix, fn, isRoot)
-			c.Check(len(bad) == 0, "R6", "sdk/trace|"+fn.Name+"|no write through the published processor list", at(tix.M, fn.Pos()), "edits go to a fresh copy that is then published",
-				"the processor list other goroutines are iterating (span End/Start, ForceFlush) is modified in place — a concurrent End skips one processor and delivers twice to another: "+joinStr(bad))
-		}
-		if n == 0 {
-			c.Missing("R6", "users of TracerProvider.getSpanProcessors")
-		}
-	}
+	rulePublishedListImmutable(c, tix, "R6")
 
 	// R7 shutdown effects are unconditional
 	c.Rule("R7", "E3 must-pass (negative form)", "Shutdown of a provider sets its stopped flag on every path that was not already stopped; a held exporter's Shutdown is reached on every path of the component's own first Shutdown (excused only by a nil component or an already-set flag)", 7)
@@ -1086,6 +1043,10 @@ func c15(c *Ctx) {
 			}
 		}
 	}
+
+	// R9 a flush that overlaps a completed Shutdown returns
+	c.Rule("R9", "E3 select arms (shared with C01.R9)", "batchSpanProcessor.ForceFlush: every wait for the flush marker's acknowledgement also has an arm on the processor's stop channel, so a flush issued around a Shutdown returns instead of blocking forever", 1)
+	ruleFlushWaitStops(c, tix, "R9")
 
 	// R5 nil-exporter guards
 	c.Rule("R5", "E3 nil-guard + E4 one-level value flow", "every call through an exporter field that the constructor accepts as nil is dominated by a non-nil test of that value", 8)
@@ -1537,4 +1498,54 @@ func localNilSafe(ix *PkgIndex, f *FuncInfo, v types.Object) (bool, string) {
 		}
 	}
 	return true, ""
+}
+
+// rulePublishedListImmutable: the span-processor list published through the atomic pointer is never written in place (readers —
+// span End/Start, ForceFlush — iterate it without a lock). Shared by C15.R6 (exact membership), C10.R4's companion and C01.R10
+// (a span is handed to each processor, hence to the batch processor, exactly once).
+func rulePublishedListImmutable(c *Ctx, tix *PkgIndex, rule string) {
+	tinfo := tix.Pkg.TypesInfo
+
+	fSP := lookupField(tix.Pkg, "TracerProvider", "spanProcessors")
+	getter := tix.Func("(*TracerProvider).getSpanProcessors")
+	n := 0
+	for _, fn := range sortedFuncs(tix.Funcs) {
+		isRoot := func(e ast.Expr) bool {
+			e = unparen(e)
+			if st, ok := e.(*ast.StarExpr); ok {
+				e = unparen(st.X)
+			}
+			call, ok := e.(*ast.CallExpr)
+			if !ok {
+				return false
+			}
+			if getter != nil && callToDecl(tinfo, getter)(call) {
+				return true
+			}
+			return fSP != nil && fieldMethodCall(tinfo, call, fSP, "Load") != nil
+		}
+		uses := false
+		for _, fi := range tix.All {
+			if tix.Outer(fi) != fn {
+				continue
+			}
+			inspectNoLit(fi.Body(), func(nd ast.Node) bool {
+				if e, ok := nd.(ast.Expr); ok && isRoot(e) {
+					uses = true
+				}
+				return true
+			})
+		}
+		if !uses || fn == getter {
+			continue
+		}
+		n++
+		c.Analysed(fn)
+		bad := sharedSliceWrites(tix, fn, isRoot)
+		c.Check(len(bad) == 0, rule, "sdk/trace|"+fn.Name+"|no write through the published processor list", at(tix.M, fn.Pos()), "edits go to a fresh copy that is then published",
+			"the processor list other goroutines are iterating (span End/Start, ForceFlush) is modified in place — a concurrent End skips one processor and delivers twice to another: "+joinStr(bad))
+	}
+	if n == 0 {
+		c.Missing(rule, "users of TracerProvider.getSpanProcessors")
+	}
 }
